@@ -1,8 +1,20 @@
-// ---- round_ratio_lemmas.rs
-/// (q+1)*d and (q-1)*d spelled out
-pub proof fn lemma_qd(q: int, d: int)
-    ensures (q + 1) * d == q * d + d, (q - 1) * d == q * d - d
+// ---- round_ratio_lemmas.rs: integer facts behind rational/src/round.rs
+
+/// t + fnum/fden == num/den, cross-multiplied (den, fden > 0)
+pub open spec fn frac_sum_eq(t: int, fnum: int, fden: int, num: int, den: int) -> bool {
+    t * den * fden + fnum * den == num * fden
+}
+/// fnum/fden is a proper fraction carrying the sign of num/den (or zero)
+pub open spec fn proper_fract(fnum: int, fden: int, num: int) -> bool {
+    fden > 0 && iabs(fnum) < fden && (fnum == 0 || (fnum > 0) == (num > 0))
+}
+
+/// q + r/den == num/den  (fract = r/den), and the degenerate form for r == 0 (fract = 0/1)
+pub proof fn lemma_frac_sum(num: int, den: int, q: int, r: int)
+    requires num == q * den + r
+    ensures frac_sum_eq(q, r, den, num, den), r == 0 ==> frac_sum_eq(q, 0, 1, num, den)
 {
-    assert((q + 1) * d == q * d + d) by (nonlinear_arith);
-    assert((q - 1) * d == q * d - d) by (nonlinear_arith);
+    let qd = q * den;
+    assert(qd * den + r * den == (qd + r) * den) by (nonlinear_arith);
+    assert(qd * 1 + 0 * den == qd) by (nonlinear_arith);
 }
